@@ -462,7 +462,18 @@ def quaternion_of_rotation(M):
                 r is not None, getattr(r, "sigma", None), str(M[0, 0])[:300], symrot.nf_key(M) is not None))
         qs = [c.fresh("qm") for _ in range(4)]
         R = symrot.quat_R(qs)
-        eqs = [R[i][j] == toz(M[i, j]) for i in range(3) for j in range(3)]
+        # the eigenvector of the largest eigenvalue of K(M) is the same for k*M, k > 0: for a scaled rotation
+        # block (Sim(3) poses) the result is the unit quaternion of the rotation part.  k = 1 when the first
+        # row is shown to have unit norm (certified reduction); otherwise k is a fresh positive value
+        # with k^2 = |row 0|^2.  (For a block that is no scaled rotation the constraints are unsatisfiable and
+        # the path fails its reachability check: reported, never silently passed.)
+        rr = sc.reduced(M[0, 0] * M[0, 0] + M[0, 1] * M[0, 1] + M[0, 2] * M[0, 2])
+        rz = z3.simplify(toz(rr))
+        if z3.is_rational_value(rz) and sc.zval_to_fraction(rz) == 1:
+            eqs = [R[i][j] == toz(M[i, j]) for i in range(3) for j in range(3)]
+        else:
+            k = c.fresh("qscale")
+            eqs = [k > 0, k * k == rz] + [k * R[i][j] == toz(M[i, j]) for i in range(3) for j in range(3)]
         ax = z3.And([symrot.norm2(qs) == 1, qs[0] >= 0] + eqs)
         from . import polyred
         for x in qs:
